@@ -172,6 +172,33 @@ fn registry() -> Vec<CheckDef> {
         run: kvlib::c05::run,
         replay: kvlib::c05::replay,
         assumptions: &["threads with their own handles stand in for processes; exactly one participant runs between two scheduling points, every intercepted path-level or metadata call is a scheduling point", "participants run with an unprivileged effective uid (as root, permission races cannot surface)", "complete over one preemption for the generated programs, sampled beyond"],
+    },
+    CheckDef {
+        id: "C04",
+        level: "exploration",
+        workers: 16,
+        rule: "proptest-generated program sets: 2-3 participants x 1-3 operations from {set, put, get (read at once or holding the handle), touch} through plain::Cache, or the same plus ensure through a Cache with that plain writer, all on ONE key of a plain directory with capacity 2^40 (no eviction), key initially present or absent, cache directory initially present or missing, shared or separate handles; for every program set ALL single-preemption schedules + generated random-walk and PCT schedules; each execution's call/return history must admit a linearization against the register specification (Wing-Gong search; ensure = get, on miss put, get as three atomic sub-steps inside its interval); non-trivial = at least two operations overlap in time and one of them writes; distinct by hash of (layout, programs, picks)",
+        run: kvlib::c04::run,
+        replay: kvlib::c04::replay,
+        assumptions: &["call/return events are totally ordered by a global counter; exactly one participant runs between two scheduling points", "an operation that returns Err makes no claim (it may or may not have taken effect); such errors are counted and left to C05", "a lookup that holds its handle linearizes at the open, the content being determined by the inode it opened"],
+    },
+    CheckDef {
+        id: "C01",
+        level: "exploration",
+        workers: 16,
+        rule: "proptest-generated program sets on {plain, sharded 2-3 shards, stacked over plain/sharded with a preloaded read-only level, optionally with a byte-equality checker} with per-directory capacity 0-2 (maintenance on every write, including eviction of what was just published), shared or separate handles, directories initially missing or not; 2-3 participants x 1-2 operations from {set, put, ensure, promote, replace, get (read at once, or handle held to the end of the program), touch, maintenance-only write, get through a ReadOnlyCache laid over the writers' directory} over 2 keys with value sizes {1, 17, 4096, 8193, 70000}; data-plane calls (write, copy_file_range, read) are scheduling points too; for every program set ALL single-preemption schedules + generated random-walk and PCT schedules; at EVERY scheduling point all cache directories are scanned with everybody paused; non-trivial = a lookup overlapped in time with a write to the same key by another participant; distinct by hash of (layout, programs, picks)",
+        run: kvlib::c01::run,
+        replay: kvlib::c01::replay,
+        assumptions: &["values are self-describing (key, writer, sequence, length + keyed pseudo-random body), so completeness and provenance are decidable from the bytes", "the kernel executes each libc call atomically; threads stand in for processes", "two copies of a key in a sharded cache under concurrent writers are allowed (documented) and not flagged"],
+    },
+    CheckDef {
+        id: "C06",
+        level: "exploration",
+        workers: 16,
+        rule: "the program sets and layouts of C05 (without adversary) plus a writer that stalled for two hours between creating its temp file and publishing it; (a) for every participant A and EVERY yield point i of A (learnt from a solo run) A is frozen forever at i while all other participants run their whole programs one after the other, A being released only at the very end; (b) generated random-walk prefixes followed by one participant running alone with all others frozen where they are; every operation must return Ok within c_op + 8 x (directory entries it listed + 1) of its own intercepted path-level/metadata/directory calls (c_op: lookups 20-30, set/put 60, ensure/get_or_update 120) and no locking primitive may appear; non-trivial = some participant completed a whole operation while a peer was frozen strictly inside an operation that had already made a mutating call; distinct by hash of (layout, programs, picks)",
+        run: kvlib::c06::run,
+        replay: kvlib::c06::replay,
+        assumptions: &["'eventually' is turned into safety: bounded own steps with peers frozen; a step is one intercepted path-level, metadata or directory call (read/write/lseek/close on an open descriptor are not counted)", "an operation exceeding 3000 steps is stopped by making its further calls fail (so that an unbounded retry loop terminates) and reported", "a genuine hang is caught by the orchestrator's watchdog and reported as inconclusive (exit 2), never as a violation", "the stalled writer whose temp file was reclaimed may fail, but must do so within the bound"],
     }]
 }
 
